@@ -122,7 +122,7 @@ class HPath:
 
 
 class HandlerModel:
-    def __init__(self, ctx, rep=None, loop_bound=2):
+    def __init__(self, ctx, rep=None, loop_bound=2, keep=None):
         self.ctx = ctx
         idx = ctx.idx
         self.wrapper = ctx.method("ProxyServer", "handle_new_http_request")
@@ -151,7 +151,7 @@ class HandlerModel:
         self.engine = ctx.engine(inline=inl, loop_bound=loop_bound)
         self.cg = callgraph.CallGraph(idx)
         self.cg.set_src(ctx.src)
-        self.engine.auto_inline = make_auto_inline(self.cg)
+        self.engine.auto_inline = make_auto_inline(self.cg, keep or KEEP)
         holder = {}
 
         def mkargs(engine):
